@@ -184,6 +184,13 @@ def _identity(message):
     return message
 
 
+class _NoOverrides:
+    """settings.debug.ip_overrides when nothing is configured (a dict lookup would hash the name token)"""
+
+    def get(self, key, default=None):
+        return default
+
+
 class World:
     """one client under test: real DistributedNetwork on a real EventBus, a Network shell
     with the real dispatch methods, connections with recording sockets, a virtual loop"""
@@ -283,6 +290,66 @@ class World:
             raise symex.HarnessError('accept() did not create exactly one connection')
         self.conns.append(made[0])
         return made[0], task
+
+    def connect_to_peer(self, username, typ=PeerConnectionType.DISTRIBUTED, hang_from=0):
+        """the peer cannot reach us directly and asks through the server: the REAL Network._on_connect_to_peer ->
+        _handle_connect_to_peer creates the PeerConnection, connect()s it (CONNECTING -> CONNECTED; only
+        asyncio.open_connection is the environment), sends PeerPierceFirewall, _finalize_peer_connection, emits
+        PeerInitializedEvent(requested=False) - for a connection with incoming == False.
+        `hang_from` = n > 0: the peer's socket stops draining from the n-th frame we write after the pierce-firewall frame.
+        Returns (connection, the connect-to-peer task)."""
+        import aioslsk.network.connection as conn_mod
+        import aioslsk.network.network as net_mod
+        from aioslsk.protocol.messages import ConnectToPeer, PeerInitializationMessage
+        symbolic = self.c.symbolic
+        state = {'n': 0}
+
+        def decoder(data):
+            state['n'] += 1
+            if state['n'] == 1:       # the first frame on a connection is a peer-init message
+                return PeerInitializationMessage.deserialize_request(data)
+            return DistributedMessage.deserialize_request(data)
+
+        writer = FakeWriter(decoder=None if symbolic else decoder)
+        writer.hang_drain = hang_from > 0
+        writer.hang_from = hang_from + 1
+        reader = FakeReader(b'')
+        made = []
+        real_cls = net_mod.PeerConnection
+
+        def factory(*a, **kw):
+            net_mod.__dict__['PeerConnection'] = real_cls
+            conn = real_cls(*a, **kw)
+            conn.fake_writer = writer
+            if symbolic:
+                conn.encode_message_data = _identity
+            made.append(conn)
+            return conn
+
+        async def open_connection(host, port, **kw):
+            return reader, writer
+
+        class _Asyncio:
+            def __getattr__(self, k):
+                return open_connection if k == 'open_connection' else getattr(asyncio, k)
+
+        net = self.net
+        if not hasattr(net, '_create_peer_connection_tasks'):
+            net._create_peer_connection_tasks = []
+            net._ip_overrides = _NoOverrides()
+        msg = ConnectToPeer.Response(username, typ, '10.0.0.7', 2234, 77, False)
+        saved_asyncio = conn_mod.__dict__['asyncio']
+        net_mod.__dict__['PeerConnection'] = factory
+        conn_mod.__dict__['asyncio'] = _Asyncio()
+        try:
+            self.run(net._on_connect_to_peer(msg, self.server))
+        finally:
+            net_mod.__dict__['PeerConnection'] = real_cls
+            conn_mod.__dict__['asyncio'] = saved_asyncio
+        if len(made) != 1:
+            raise symex.HarnessError('_handle_connect_to_peer did not create exactly one connection')
+        self.conns.append(made[0])
+        return made[0], net._create_peer_connection_tasks[-1] if net._create_peer_connection_tasks else None
 
     async def _create_peer_connection(self, username, typ, ip=None, port=None, obfuscate=False):
         fut = asyncio.get_running_loop().create_future()
